@@ -83,6 +83,7 @@ fn regimes(prop: &str, weighted: bool) -> Vec<&'static str> {
     match (prop, weighted) {
         ("C17", _) => vec!["uniform", "offset1e15", "huge1e150", "near-constant", "const"],
         ("C16", _) => vec!["const", "const-b", "uniform"],
+        (_, true) => vec!["uniform", "offset1e9", "tiny", "big", "near-constant", "const", "ties", "near-equal-w", "equal-w"],
         _ => vec!["uniform", "offset1e9", "both-offset", "tiny", "big", "collinear", "anticollinear", "near-constant", "const", "ties"],
     }
 }
@@ -91,7 +92,7 @@ fn regimes(prop: &str, weighted: bool) -> Vec<&'static str> {
 fn gen(regime: &str, weighted: bool, i: usize, rng: &mut Xoshiro256PlusPlus) -> (f64, f64) {
     let mut u = || rng.random::<f64>();
     let a = match regime {
-        "uniform" | "collinear" | "anticollinear" => u() * 100.0 - 50.0,
+        "uniform" | "collinear" | "anticollinear" | "near-equal-w" | "equal-w" => u() * 100.0 - 50.0,
         "offset1e9" | "both-offset" => 1.0e9 + u() + u() + u(),
         "offset1e15" => 1.0e15 + u() * 4.0,
         "tiny" => -(1.0 - u()).ln() * 1.0e-20,
@@ -102,7 +103,12 @@ fn gen(regime: &str, weighted: bool, i: usize, rng: &mut Xoshiro256PlusPlus) -> 
         "huge1e150" => (u() - 0.3) * 1.0e150,
         o => panic!("regime {o}"),
     };
-    let b = if weighted {
+    let b = if weighted && regime == "near-equal-w" {
+        // all positive, equal to within 1e-5: the effective sample size is just below len()
+        1.0 + ((u() * 17.0).floor() - 8.0) * 2f64.powi(-20)
+    } else if weighted && regime == "equal-w" {
+        0.1
+    } else if weighted {
         let k = (u() * 10.0) as usize;
         match k {
             0 | 1 => 0.0,
